@@ -198,7 +198,30 @@ pub fn dyadic_weights(rng: &mut Rng, n: usize, wild: bool) -> Vec<f64> {
         return vec![1.0];
     }
     let mut k: Vec<i64> = vec![0; n];
-    if wild {
+    if wild && n >= 3 && rng.chance(0.3) {
+        // one component exactly 1.0, the others cancel each other
+        let one = rng.below(n);
+        let mut rest = 0i64;
+        let others: Vec<usize> = (0..n).filter(|i| *i != one).collect();
+        for (j, i) in others.iter().enumerate() {
+            if j + 1 == others.len() {
+                k[*i] = -rest;
+            } else {
+                let mut v = rng.irange(-64, 64);
+                if v == 0 {
+                    v = 32;
+                }
+                k[*i] = v;
+                rest += v;
+            }
+        }
+        k[one] = 64;
+        if k.iter().filter(|x| **x != 0).count() < 3 {
+            // make sure the cancelling components are not zero
+            k[others[0]] += 16;
+            k[others[others.len() - 1]] -= 16;
+        }
+    } else if wild {
         let mut rest = 64i64;
         for item in k.iter_mut().take(n - 1) {
             let v = rng.irange(-64, 128);
